@@ -5,7 +5,7 @@ import json
 from .. import sessprop, pipeline, replay as rp
 
 KINDS = {'ev', 'wr', 'wrf', 'call', 'stop', 'escape', 'hang'}
-DROP = ('headers', 'msg', 'url', 'len', 'key', 'i', 'at', 'sock', 'keylen', 'custom', 'rest')
+DROP = ('headers', 'msg', 'url', 'len', 'key', 'i', 'at', 'sock', 'keylen', 'custom', 'rest', 't')
 CALLS = {"close": ["close"], "send": ["send_text", "x"]}
 
 
